@@ -95,6 +95,8 @@ def to_z3(v, real=False):
         return v.z.e
     if isinstance(v, bool):
         return z3.BoolVal(v)
+    if type(v).__module__ == 'numpy' and hasattr(v, 'item') and getattr(v, 'ndim', 1) == 0:
+        v = v.item()                                # numpy scalar -> python scalar
     if isinstance(v, int):
         return z3.RealVal(v) if real else z3.IntVal(v)
     if isinstance(v, Fraction):
@@ -188,6 +190,9 @@ def zand(*a):
 
 # ---------------------------------------------------------------------------
 def ilen(x):
+    import numpy
+    if isinstance(x, numpy.integer):
+        return int(x)
     return x.e if isinstance(x, Z) else x
 
 
@@ -205,6 +210,15 @@ class SArr:
         self.shape = tuple(ilen(s) for s in shape)
         self.fn = fn
         self.name = name
+
+    @property
+    def T(self):
+        return self.transpose()
+
+    def swapaxes(self, i, j):
+        perm = list(range(len(self.shape)))
+        perm[i], perm[j] = perm[j], perm[i]
+        return self.transpose(tuple(perm))
 
     @property
     def ndim(self):
@@ -298,7 +312,12 @@ class SArr:
     def __abs__(self):
         return SArr(self.shape, lambda idx: abs(wrap(self.fn(idx))), self.name)
 
-    def transpose(self, perm):
+    def transpose(self, *perm):
+        # numpy accepts a.transpose(), a.transpose((2, 1, 0)) and a.transpose(2, 1, 0)
+        if len(perm) == 1 and isinstance(perm[0], (tuple, list)):
+            perm = tuple(perm[0])
+        elif len(perm) == 0 or perm == (None,):
+            perm = tuple(reversed(range(len(self.shape))))
         shp = tuple(self.shape[p] for p in perm)
 
         def fn(idx):
@@ -415,7 +434,7 @@ class ShimNPz:
         if step is not None:
             raise PathAbort('arange with step not modelled')
         if isinstance(ilen(lo), int) and isinstance(ilen(hi), int):
-            return range(lo, hi)
+            return range(ilen(lo), ilen(hi))
         return GenRange(lo, hi)
 
     def array(self, x, *a, **k):
@@ -436,14 +455,42 @@ class ShimNPz:
         return stack(x)
 
     def stack(self, xs, axis=0):
-        if axis != 0:
-            raise PathAbort('stack axis != 0 not modelled')
-        return stack(xs)
+        r = stack(xs)
+        return r if axis == 0 else self.moveaxis(r, 0, axis)
+
+    def _perm_move(self, nd, src, dst):
+        src, dst = src % nd, dst % nd
+        order = [k for k in range(nd) if k != src]
+        order.insert(dst, src)
+        return tuple(order)
+
+    def moveaxis(self, a, src, dst):
+        if not (isinstance(src, int) and isinstance(dst, int)):
+            raise PathAbort('moveaxis with axis sequences not modelled')
+        return a.transpose(self._perm_move(len(a.shape), src, dst))
+
+    def swapaxes(self, a, i, j):
+        perm = list(range(len(a.shape)))
+        perm[i], perm[j] = perm[j], perm[i]
+        return a.transpose(tuple(perm))
+
+    def flip(self, a, axis=None):
+        nd = len(a.shape)
+        axes = range(nd) if axis is None else ([axis % nd] if isinstance(axis, int) else [x % nd for x in axis])
+        sl = tuple(slice(None, None, -1) if k in axes else slice(None) for k in range(nd))
+        return a[sl]
+
+    def append(self, a, b, axis=None):
+        if axis is None:
+            raise PathAbort('append with axis=None (flattening) not modelled')
+        return self.concatenate((a, b), axis=axis)
 
     def concatenate(self, parts, axis=0):
-        if axis != 0:
-            raise PathAbort('concatenate axis != 0 not modelled')
         parts = list(parts)
+        if axis != 0:
+            nd = len(parts[0].shape)
+            moved = [self.moveaxis(p, axis, 0) for p in parts]
+            return self.moveaxis(self.concatenate(moved, axis=0), 0, axis % nd)
         lens = [p.shape[0] for p in parts]
         total = lens[0]
         for l in lens[1:]:
